@@ -32,6 +32,10 @@ pub enum OC {
   IsZero,
   /// harness checker, always consistent, logging
   Always,
+  /// harness checker with a NON-transitive relation: stamp = output, consistent iff |output - stamp| <= 1 (a
+  /// tolerance checker; the requirer observes nothing). Consistency must be decided against the stamp taken when the
+  /// dependency was created, not against a later output that was merely found consistent.
+  Near,
   /// pie's own `EqualsChecker`
   PieEquals,
   /// pie's own `AlwaysConsistent`
@@ -71,7 +75,7 @@ impl RC {
 impl OC {
   pub fn stamp_of(&self, out: u8) -> OStamp {
     match self {
-      OC::Equals | OC::PieEquals => OStamp::Val(out),
+      OC::Equals | OC::PieEquals | OC::Near => OStamp::Val(out),
       OC::IsZero => OStamp::Zero(out == 0),
       OC::Always | OC::PieAlways => OStamp::Unit,
     }
@@ -80,14 +84,19 @@ impl OC {
     match self {
       OC::Equals | OC::PieEquals => Some(out),
       OC::IsZero => Some((out != 0) as u8),
-      OC::Always | OC::PieAlways => None,
+      OC::Always | OC::PieAlways | OC::Near => None,
     }
   }
   /// Reference relation: is an output `out` consistent with `stamp`?
-  pub fn consistent(&self, out: u8, stamp: OStamp) -> bool { self.stamp_of(out) == stamp }
+  pub fn consistent(&self, out: u8, stamp: OStamp) -> bool {
+    match (self, stamp) {
+      (OC::Near, OStamp::Val(s)) => (out as i16 - s as i16).abs() <= 1,
+      _ => self.stamp_of(out) == stamp,
+    }
+  }
   pub fn name(&self) -> &'static str {
     match self {
-      OC::Equals => "Equals", OC::IsZero => "IsZero", OC::Always => "Always",
+      OC::Equals => "Equals", OC::IsZero => "IsZero", OC::Always => "Always", OC::Near => "Near",
       OC::PieEquals => "PieEquals", OC::PieAlways => "PieAlways",
     }
   }
@@ -187,7 +196,7 @@ pub fn stmt_from_string(s: &str) -> Result<Stmt, String> {
     Ok(match a { "Exact" => RC::Exact, "Exists" => RC::Exists, "Always" => RC::Always, "Faulty" => RC::Faulty, o => return Err(format!("rc {}", o)) })
   };
   let oc = |a: &str| -> Result<OC, String> {
-    Ok(match a { "Equals" => OC::Equals, "IsZero" => OC::IsZero, "Always" => OC::Always, "PieEquals" => OC::PieEquals, "PieAlways" => OC::PieAlways, o => return Err(format!("oc {}", o)) })
+    Ok(match a { "Equals" => OC::Equals, "IsZero" => OC::IsZero, "Always" => OC::Always, "Near" => OC::Near, "PieEquals" => OC::PieEquals, "PieAlways" => OC::PieAlways, o => return Err(format!("oc {}", o)) })
   };
   let src = |a: &str| -> Result<Src, String> {
     Ok(match a { "Acc" => Src::Acc, "One" => Src::One, "Zero" => Src::Zero, o => return Err(format!("src {}", o)) })
